@@ -241,19 +241,34 @@ def body(chk, db, cfgname):
     g = db.fn(DM + "::truncateBlocks")
     gctx = Ctx(g, db)
     site = DM + "::truncateBlocks"
-    good = False
-    for j, n in g.walk(g.body):
-        if n["k"] == "for":
-            shp = loop_shape(g, gctx, j)
-            if shp["kind"] == "iter" and shp["bound"] == fld(DM + "::parts") and not shp["exits"]:
-                for jj, nn in g.walk(shp["body"]):
-                    if nn["k"] == "call" and strip_targs(nn.get("cname") or "") == DMP + "::truncate" and gctx.key(nn["args"][0]) == ("param", g.params[0]["d"], g.params[0]["n"]) \
-                            and gctx.key(nn["obj"]) in (("op", "*", shp["var"]), ("un", "*", shp["var"])):
-                        good = True
-    if good:
+    from pv.loops import covers, is_element
+    from pv.paths import every_iteration
+    calls_ = [jj for jj, nn in g.walk(g.body) if nn["k"] == "call" and strip_targs(nn.get("cname") or "") == DMP + "::truncate"]
+    verdict, why = "unknown", "truncate() is not called from a loop over the parts"
+    for jj in calls_:
+        nn = g.nodes[jj]
+        Ls = [L for L in enclosing_loops(g, jj) if g.nodes[L]["k"] in ("for", "forrange")]
+        if not Ls:
+            continue
+        shp = loop_shape(g, gctx, Ls[0])
+        if not covers(shp, fld(DM + "::parts")):
+            if shp["kind"] in ("index", "iter", "range"):
+                verdict, why = "bad", "the loop around truncate() does not visit every block (start %s, bound %s, early exits %s)" % (shp.get("start"), shp.get("bound"), [e[1] for e in shp["exits"]])
+            continue
+        if gctx.key(nn["args"][0]) != ("param", g.params[0]["d"], g.params[0]["n"]):
+            verdict, why = "bad", "blocks are truncated with %s instead of the requested tolerance" % g.s(nn["args"][0])[:40]
+        elif not is_element(gctx.key(nn["obj"]), shp, fld(DM + "::parts")):
+            verdict, why = "bad", "truncate() is not called on the block visited by the loop"
+        elif every_iteration(g, Ls[0], jj) is False:
+            verdict, why = "bad", "some blocks are not truncated (an `if` / `continue` bypasses the call): their retention flags keep the value of an earlier tolerance"
+        else:
+            verdict = "ok"
+    if verdict == "ok":
         r2.ok(site, g.loc(), "truncate(Tolerance) on every part", cfgname)
+    elif verdict == "bad":
+        r2.bad(site, g.loc(), "not every block is truncated with the requested tolerance: " + why, cfgname)
     else:
-        r2.bad(site, g.loc(), "not every block is truncated with the requested tolerance", cfgname)
+        r2.unknown(site, g.loc(), why, cfgname)
     g = db.fn(DM + "::isRetained", nparams=1)
     gctx = Ctx(g, db)
     b = ("param", g.params[0]["d"], g.params[0]["n"])
